@@ -26,6 +26,9 @@ SEG_LETTERS = set('CLOVFGJSbrkKxd')
 INV_OPC = {v: k for k, v in nlgen.OPC.items()}
 VARIADIC = ('sum', 'min', 'max')
 N_THEOREMS = 12
+# vptr excluded: mp's CRTP base constructors downcast `this` before the derived object exists (flat/converter.h:51),
+# which UBSan's vptr check reports on every run; unrelated to this property
+SAN_FLAGS = ('-O1', '-g', '-fsanitize=address,undefined', '-fno-sanitize=vptr', '-fno-sanitize-recover=all')
 
 
 # ----------------------------------------------------------------------------- generator
@@ -850,7 +853,7 @@ def run(ck):
     exe = recsolver.build(ck)
     drv = ck.driver('drv_c12')
     ck.log('recsolver and drv_c12 built')
-    wdir = os.path.join(BUILD, 'c12', 'work')
+    wdir = os.path.join(BUILD, 'c12', 'work-%d' % os.getpid())
     shutil.rmtree(wdir, ignore_errors=True)
     os.makedirs(wdir, exist_ok=True)
     rng = nlgen.Rng(ck.seed * 1000003 + (17 if ck.tier == 'quick' else 29))
@@ -956,6 +959,23 @@ def run(ck):
                 diff = next((i for i in range(min(len(la), len(lb))) if la[i] != lb[i]), min(len(la), len(lb)))
                 ck.add_violation('select:differs-from-single-objective-file', 'objno selection on the full file delivers a different model than the file reduced to that objective (first differing event %d)' % diff,
                                  dict(a.replay_obj(), reduced=b.replay_obj(), full_event=la[diff] if diff < len(la) else None, reduced_event=lb[diff] if diff < len(lb) else None))
+    # ---- thorough: a sample of the cases again under ASan/UBSan (slot index of kept segments, C12_index_in_range)
+    if ck.tier == 'thorough':
+        exe_san = recsolver.build(ck, flags=SAN_FLAGS, name='recsolver_asan')
+        step = max(1, len(cases) // 700)
+        sample = cases[::step]
+        with ThreadPoolExecutor(max_workers=6) as ex:
+            sres = list(ex.map(lambda c: run_case(exe_san, wdir, c, 's'), sample))
+        nsan = 0
+        for c, r in zip(sample, sres):
+            nsan += 1
+            if r['rc'] != 0 or 'Sanitizer' in r['err'] or 'runtime error' in r['err']:
+                ck.add_violation('memory:sanitizer-report', 'ASan/UBSan build of the driver reports an error or dies (rc=%s): %s' % (r['rc'], r['err'][-400:]),
+                                 dict(c.replay_obj(), stderr=r['err'][-3000:], build=' '.join(SAN_FLAGS)))
+            elif classify(r, c.ampl) != classify(by_id[c.cid], c.ampl):
+                ck.add_violation('memory:sanitized-run-differs', 'sanitized and plain builds disagree on the outcome class', c.replay_obj(), found_input=False)
+        ck.cov['sanitized_runs'] = nsan
+        ck.log('%d cases re-run under ASan/UBSan' % nsan)
     # ---- proof obligations that no longer check
     if not proof_ok:
         for fdecl in failing:
